@@ -376,10 +376,14 @@ pub fn run(ctx: &Ctx) -> (Stats, Spec) {
     for t in ["false", "true", "a & -a", "a", "-a", "a | b", "(a ^ b) & (b ^ c)", "exists a # a & b", "[a, b, c] = 2", "forall x # x | y"] {
         cli_case(ctx, &mut st, t);
     }
+    let wk_iters = ctx.tier.pick(3_000u64, 60_000u64);
+    let parts = util::par_jobs(16, |job| super::weak::weak_hash_job(ctx, "C07", job, wk_iters));
+    st.merge(crate::report::merge_all(parts));
     let spec = Spec {
         rule: "every Boolean function over 3 and 4 variables (two label families) plus random functions over 5-8 sparse labels with densities biased towards sparse (else-arms); a third of all diagrams are handed over as plain unshared nodes the environment did not build; for each: model() false iff unsat, cube shape, literals within support, model => f; infer(model, v) and infer(f, v) for every variable and one unmentioned variable; CLI: generated formulas through `rsbdd -m -t`, `-m -t -ft`, `-m -v`, and `-m -c t|f -t` related to `-c t|f -t` (the model row must be a satisfying cube of the retained diagram). distinct = (table, family) resp. (text, mode); non-trivial = satisfiable non-constant function (CLI: >= 2 free variables).".into(),
         assumptions: vec!["infer on a variable the diagram does not mention counts as forced only when the diagram is unsatisfiable".into()],
         floors: vec![
+            ("weak_hash_symbol_calls".into(), 2_000, "environment over a constant-hash symbol type never exercised".into()),
             ("model_calls".into(), 60_000, "model never exercised".into()),
             ("models_needing_an_else_arm".into(), 1_000, "else-arm of model never exercised".into()),
             ("infer_forced_true".into(), 1_000, "infer never answered for a forced variable".into()),
@@ -393,6 +397,13 @@ pub fn run(ctx: &Ctx) -> (Stats, Spec) {
 }
 
 pub fn replay(ctx: &Ctx, _monitor: &str, case: &Value, st: &mut Stats) {
+    if case.get("kind").and_then(|k| k.as_str()) == Some("weak-hash") {
+        let job = case.get("job").and_then(|j| j.as_u64()).unwrap_or(0) as usize;
+        let mut c2 = ctx.clone();
+        c2.seed = case.get("seed").and_then(|j| j.as_u64()).unwrap_or(c2.seed);
+        st.merge(super::weak::weak_hash_job(&c2, "C07", job, 20_000));
+        return;
+    }
     if case.get("kind").and_then(|k| k.as_str()) == Some("cli-retain") {
         cli_model_with_retain(ctx, st, case.get("text").and_then(|t| t.as_str()).unwrap_or("false"));
         return;
